@@ -495,16 +495,76 @@ func runDeepDecode(c *core.Case) {
 	c.Sample(n/1000, map[string]any{"sub": "deep-decode", "open": open, "depth": n})
 }
 
+// cyclic targets: interfaces that hold pointers to each other. The decoder follows a non-nil
+// pointer held by an interface; going round the cycle consumes no input, so it must stop by itself.
+var cyclicTargetDocs = []string{`{"a":"b"}`, `[1,2,3]`, `null`, `"s"`, `7`, `{"X":[1,2,3]}`, `{"X":{"X":null}}`, `[`, ``, `{"X":`, `tru`}
+
+func runCyclicTargets(c *core.Case) {
+	doc := []byte(cyclicTargetDocs[c.Index%len(cyclicTargetDocs)])
+	shape := (c.Index / len(cyclicTargetDocs)) % 6
+	c.Budget(120 * time.Second)
+	type T struct{ X any }
+	var target any
+	name := ""
+	switch shape {
+	case 0:
+		name = "self"
+		var a any
+		a = &a
+		target = &a
+	case 1:
+		name = "two"
+		var a, b any
+		a, b = &b, &a
+		target = &a
+	case 2:
+		name = "three"
+		var a, b, d any
+		a, b, d = &b, &d, &a
+		target = &a
+	case 3:
+		name = "three-through-field"
+		v := new(T)
+		var b, d any
+		v.X, b, d = &b, &d, &v.X
+		target = v
+	case 4:
+		name = "two-in-slice"
+		s := make([]any, 2)
+		s[0], s[1] = &s[1], &s[0]
+		target = &s
+	default:
+		name = "two-in-map-value"
+		var a, b any
+		a, b = &b, &a
+		m := map[string]any{"X": a, "a": &a}
+		target = &m
+	}
+	class := "cyclic-target|" + name
+	w := map[string]any{"doc": string(doc), "shape": name}
+	c.Journal(class + "|Unmarshal")
+	if sig, stk := core.Guard(func() { json.Unmarshal(doc, target) }); sig != "" {
+		c.Violation(class+"|Unmarshal", sig, stk, w)
+	}
+	c.Journal(class + "|Decoder")
+	if sig, stk := core.Guard(func() { json.NewDecoder(bytes.NewReader(doc)).Decode(target) }); sig != "" {
+		c.Violation(class+"|Decoder", sig, stk, w)
+	}
+	c.Count("cyclic-targets", 1)
+	c.Distinct(core.Mix(uint64(shape), core.HashBytes(doc)), true)
+}
+
 func init() {
 	core.Register(&core.Monitor{
 		Prop:    "C06",
-		Rule:    "decode-fuzz: arbitrary bytes, token soups, truncated and mutated documents into guarded targets (struct{Pre [4]uint64; V T; Post [4]uint64} with canary words) of generated and library types, zero or pre-filled, through Unmarshal, Parse with a random 9-bit flag word, Decoder.Decode (chunked reader ending in an error; UseNumber/DisallowUnknownFields/ZeroCopy), Valid, Tokenizer and invalid targets. encode-values: generated values incl. pointer-shaped corners by value, by pointer, as map value, in a one-element array and inside interfaces through Marshal/Append/Encoder/MarshalIndent. cycles: 20 cyclic shapes through pointers, slices, maps, empty and non-empty interfaces, recursive named slice/map/array types must return an error. deep-encode / deep-decode: nesting of 10 .. 10^6 levels (3*10^6 for documents) in 5 shapes each. A recovered panic, a canary change, a process death attributed by the journal (SIGSEGV, stack overflow, checkptr, ASan report, out of memory) or a CPU-time budget overrun confirmed in a fresh process is a violation; no functional comparison. Distinct by (type, document) / shape.",
+		Rule:    "decode-fuzz: arbitrary bytes, token soups, truncated and mutated documents into guarded targets (struct{Pre [4]uint64; V T; Post [4]uint64} with canary words) of generated and library types, zero or pre-filled, through Unmarshal, Parse with a random 9-bit flag word, Decoder.Decode (chunked reader ending in an error; UseNumber/DisallowUnknownFields/ZeroCopy), Valid, Tokenizer and invalid targets. encode-values: generated values incl. pointer-shaped corners by value, by pointer, as map value, in a one-element array and inside interfaces through Marshal/Append/Encoder/MarshalIndent. cycles: 20 cyclic shapes through pointers, slices, maps, empty and non-empty interfaces, recursive named slice/map/array types must return an error. cyclic-targets: decoding into interfaces that hold pointers to each other (cycles of 1-3, through a field, slice elements, map values). deep-encode / deep-decode: nesting of 10 .. 10^6 levels (3*10^6 for documents) in 5 shapes each. A recovered panic, a canary change, a process death attributed by the journal (SIGSEGV, stack overflow, checkptr, ASan report, out of memory) or a CPU-time budget overrun confirmed in a fresh process is a violation; no functional comparison. Distinct by (type, document) / shape.",
 		Trusted: []string{"the supervisor's crash attribution (journal + stderr signature)", "Go race detector's checkptr and AddressSanitizer for the unsafe paths", "process CPU-time clock for bounded progress"},
 		Subs: []core.Sub{
 			{Name: "decode-fuzz", N: core.Const(24000, 1000000), Run: runDecodeFuzz},
 			{Name: "encode-values", N: core.Const(12000, 400000), Run: runEncodeValues},
 			{Name: "cycles", N: core.Const(nCycleShapes, nCycleShapes*3), Run: runCycles},
 			{Name: "deep-encode", N: func(core.Tier) int { return len(deepShapes) * len(depths) }, Run: runDeepEncode, Modes: []string{"plain"}},
+			{Name: "cyclic-targets", N: func(core.Tier) int { return 6 * len(cyclicTargetDocs) }, Run: runCyclicTargets, Modes: []string{"plain"}},
 			{Name: "deep-decode", N: func(core.Tier) int { return len(docShapes) * 7 * 2 }, Run: runDeepDecode, Modes: []string{"plain", "race"}},
 		},
 	})
